@@ -18,14 +18,14 @@ type layoutResult struct {
 }
 
 type layoutEvents struct {
-	Cond   []string
-	Events []lfEvent
-	Bools  map[string]bool // decisions on receiver boolean fields
-	OK     bool            // the path returns a nil error / no error result
-	Cons   []Cons
-	Fields map[string]Lin // current integer value of receiver fields at return (by promoted path)
-	Elem   map[Sym]lfElemRef // symbols standing for bytes loaded from a tracked buffer
-	SymName func(Sym) string
+	Cond     []string
+	Events   []lfEvent
+	Bools    map[string]bool // decisions on receiver boolean fields
+	OK       bool            // the path returns a nil error / no error result
+	Cons     []Cons
+	Fields   map[string]Lin    // current integer value of receiver fields at return (by promoted path)
+	Elem     map[Sym]lfElemRef // symbols standing for bytes loaded from a tracked buffer
+	SymName  func(Sym) string
 	ParamSym map[int]Sym // integer parameters of the entry function → their symbols
 	DLen     *Lin        // length of the input byte slice
 }
